@@ -131,3 +131,45 @@ pub fn probe_data(n: usize) -> String {
         .collect();
     crate::wire::data_of(&rows)
 }
+
+/// the shipped grid file serving a name (`Plain` looks files up by extension)
+pub fn shipped_grid(name: &str) -> Option<(String, String, String)> {
+    let ext = name.rsplit('.').next()?;
+    let root = std::env::var("VERIF_REPO").unwrap_or_else(|_| "/repo".to_string());
+    let bytes = std::fs::read(format!("{root}/geodesy/{ext}/{name}")).ok()?;
+    if bytes.len() > 200_000 {
+        return None;
+    }
+    let fmt = if ext == "gsb" { "ntv2" } else { "gravsoftb" };
+    Some((name.to_string(), fmt.to_string(), grid::hex(&bytes)))
+}
+
+/// `OPG` case line: an `OP` case on a context serving the given grid files
+pub fn opg_line(grids: &[(String, String, String)], def: &str, mode: &str, dir: &str, data: &str) -> String {
+    let mut f = vec!["OPG".to_string(), grids.len().to_string()];
+    for (n, fmt, payload) in grids {
+        f.push(crate::wire::escape(n));
+        f.push(fmt.clone());
+        f.push(payload.clone());
+    }
+    f.push(op_line("default", &[], &[], def, mode, dir, data)["OP\t".len()..].to_string());
+    f.join("\t")
+}
+
+/// the shipped grids named in a definition's `grids=` lists (names that are not shipped are simply
+/// not served, as in `Plain`)
+pub fn shipped_grids_of(def: &str) -> Vec<(String, String, String)> {
+    let mut out: Vec<(String, String, String)> = vec![];
+    for part in def.split("grids=").skip(1) {
+        let list = part.split(|c: char| c.is_whitespace() || c == '|').next().unwrap_or("");
+        for name in list.split(',') {
+            let name = name.trim().trim_start_matches('@');
+            if let Some(g) = shipped_grid(name) {
+                if !out.iter().any(|x| x.0 == g.0) {
+                    out.push(g);
+                }
+            }
+        }
+    }
+    out
+}
